@@ -20,10 +20,13 @@ def ts(d, hm):
 
 def start_dates(tier):
     if tier == 'quick':
-        return list(rm.daterange(*QUICK_WINDOW))
+        # plus a window across the Unix epoch (dates before 1970 have negative epoch arithmetic)
+        return list(rm.daterange(*QUICK_WINDOW)) + list(rm.daterange(datetime.date(1969, 12, 15), datetime.date(1970, 1, 10)))
     # the 28-year Gregorian weekday/leap cycle, plus the century non-leap February 2100
     out = list(rm.daterange(datetime.date(2001, 1, 1), datetime.date(2028, 12, 31)))
     out += list(rm.daterange(datetime.date(2100, 2, 20), datetime.date(2100, 3, 5)))
+    out += list(rm.daterange(datetime.date(1969, 11, 1), datetime.date(1970, 2, 28)))
+    out += list(rm.daterange(datetime.date(1900, 2, 20), datetime.date(1900, 3, 5)))
     return out
 
 
